@@ -1,7 +1,7 @@
 (* GENERATED from /repo on every run by translate/c11_facts.py -- do not edit *)
 From SF Require Import C11.Actions.
 Open Scope Z_scope.
-Definition head_arg (n : option Z) : Z := (match n with Some v__ => if Z.eqb v__ 0 then (1)%Z else v__ | None => (1)%Z end).
+Definition head_arg (n : option Z) : Z := (match n with None => (1)%Z | Some n => n end).
 Definition head_scalar (n : option Z) : bool := (match n with None => true | Some _ => false end).
 Definition head_index : Z := (0)%Z.
 Definition first_arg : option Z := None.
@@ -13,10 +13,10 @@ Definition isempty_item : expr * string := (ELit (VBool true), "lit"%string).
 Definition isempty_head_arg : option Z := None.
 Definition isempty_negates : bool := true.
 Definition show_default : Z := (20)%Z.
-Definition show_wraps : bool := true.
+Definition show_wraps : bool := false.
 Definition show_arg (n : Z) : Z := n.
-Definition show_header_needs_row : bool := true.
-Definition gen_rename (fields : list string) (i : nat) (field : string) : string := (if (mem field fields) then (let field := ((field ++ "_"%string)%string ++ (str_of_nat i))%string in field) else field).
+Definition show_header_needs_row : bool := false.
+Definition gen_rename (fields : list string) (i : nat) (field : string) : string := (while_fresh (fun unique => (mem unique fields)) (fun n => ((field ++ "_"%string)%string ++ (str_of_nat n))%string) field i (S (List.length fields))).
 Definition gen_afacts : afacts := mkA head_arg head_scalar head_index first_arg count_wraps count_append count_star count_pick isempty_item isempty_head_arg isempty_negates show_default show_wraps show_arg show_header_needs_row gen_rename.
 Definition unique_field_names : list string -> list string := ufn gen_rename.
 Definition path_of (k : action) : spath := match k with ACollect => mkPath false true false | AToPandas => mkPath false true false | AToArrow => mkPath false true false end.
